@@ -489,8 +489,11 @@ size_t varintAdaptiveDecode(const uint8_t *src, uint64_t *values,
             /* Extract values from bitmap */
             size_t allocSize;
             uint16_t *shortValues = NULL;
-            if (!size_mul_overflow(maxCount, sizeof(uint16_t), &allocSize)) {
-                shortValues = malloc(allocSize);
+            /* varintBitmapToArray writes every member, however small
+             * maxCount is: size the scratch array by the cardinality. */
+            if (!size_mul_overflow(varintBitmapCardinality(vb),
+                                   sizeof(uint16_t), &allocSize)) {
+                shortValues = malloc(allocSize ? allocSize : 1);
             }
 
             if (shortValues) {
